@@ -1645,6 +1645,7 @@ func c03gen(c *h.Ctx, yield func(*h.Case)) {
 	c03genR4(g, emit)
 	c03genR5(g, emit)
 	c03genR7(g, emit)
+	c03genR7b(g, emit)
 
 	// ---- raw framing: random frame lists, random chunkings, cut or over-limit tails
 	for i := 0; i < c.Pick(1100, 30000); i++ {
